@@ -28,6 +28,15 @@ Pool-case kinds:
   long   deterministic longer records around powers of two (lengths the word tree cannot reach)
   pair   one word x with every word y of the same length: spectrum(2x-3y) = 2 S(x) - 3 S(y)
   inv    one even N: inverse helpers on the spectra of a basis (all impulses) and of mixed records
+  pow2   one length 2^e + {-1, 0, 1}, e up to the largest the tier can afford: sparse record through every entry point (the N of
+         the statement by integer arithmetic; number of bins, grid and values)
+  orders one short word: an object with a history has its record changed (reset_values from two other lengths, add_constant,
+         add_series), then every order of 1..3 distinct reads (spectrum, frequencies, absolute spectrum, dominant period, smoothed
+         spectrum, array-level function); every Fourier quantity read is that of the record held now
+
+Fourth round: the records the library's own inverse helpers hand out (objects returned by fas2signal, objects constructed from the
+complex-typed array fas2values returns) are fed back into the forward functions wherever the inverse helpers are exercised; a
+complex-typed container of the word; the power-of-two boundary family.
 """
 import numpy as np
 
@@ -36,6 +45,7 @@ from ..result import Res
 from ..compare import words
 from ..refs import freq_ref as fr
 
+CASE_TIMEOUT = 400      # the largest power-of-two boundary cases of the thorough tier take ~15 s on an idle machine
 SIGMA = (-1, 0, 2)
 DTS = (0.01, 0.5)
 CLASSES = ('Signal', 'AccSignal')
@@ -79,6 +89,16 @@ def build(tier, seed):
         cases.append({'k': 'pair', 'x': list(x)})
     for n in inv_n:
         cases.append({'k': 'inv', 'N': n})
+    LO3, LO2 = (2, 3) if quick else (3, 4)      # words up to these lengths: all orders of 3 / of 2 reads after a record change
+    for w in words(SIGMA, 2, LO2, nonzero=True):
+        cases.append({'k': 'orders', 'w': list(w), 'deep': len(w) <= LO3})
+    # record lengths 2^e - 1, 2^e, 2^e + 1 for every e up to the largest the tier can afford (the top ones cost ~1 s (quick) /
+    # ~15 s (thorough) each: they are spread evenly over the case list so that no pool chunk holds two of them)
+    e_max = 18 if quick else 21
+    p2c = [{'k': 'pow2', 'e': e, 'off': off} for e in range(1, e_max + 1) for off in (-1, 0, 1) if (1 << e) + off >= 2]
+    stride = max(1, len(cases) // len(p2c))
+    for i, c in enumerate(p2c):
+        cases.insert(i * (stride + 1), c)
     return {
         'cases': cases,
         'rule': 'all non-zero words over {-1,0,2} of length 2..%d (one pool case per word) x dt in %s x {Signal, AccSignal} '
@@ -93,14 +113,25 @@ def build(tier, seed):
                 'pattern family of the module docstring (previous record lengths {2, L-1, L+1, 2L+1, 2^ceil(log2 L)+1} x previous '
                 'queries {none, everything, gen_fa_spectrum(p2_plus=1), gen_fa_spectrum(n odd)}); + words of length <= %d and the '
                 'mixed long records x scale in %s x dt in %s; + near-equal harmonic pairs for N in %s, eps in %s, scales %s; '
+                '+ sparse records (first, middle, last sample non-zero) of EVERY length 2^e - 1, 2^e, 2^e + 1, e = 1..%d, through all '
+                'padded / un-padded / explicit-n entry points (p2_plus 0..3 up to e = 12, 0..1 above); + round trips: every object '
+                'returned by fas2signal and every object constructed from the array fas2values returned (complex-typed records) is '
+                'fed back into the forward functions (lazy properties, calc_fa_spectrum; for spectra that came from the library also '
+                'generate_fa_spectrum, gen_fa_spectrum(n=N), dominant period); complex-typed container of the word; '
+                '+ orders of reads: for every word of length <= %d x {Signal, AccSignal} x record change in %s applied to an object '
+                'with a history: every order of 1 and 2 (length <= %d: and 3) distinct reads from %s; '
                 'non-trivial = record not identically zero'
                 % (L, list(DTS), LX, longs, LP, inv_n, LH, LS, list(SCALES), list(SCALED_DTS), near_n, list(NEAR_EPS),
-                   list(NEAR_SCALES)),
+                   list(NEAR_SCALES), e_max, LO2, list(ORD_MUTATORS), LO3, list(ORD_READS)),
         'bounds': {'alphabet': SIGMA, 'max_len': L, 'dt': DTS, 'p2_plus': [0, 1, 2, 3], 'n': ['L', 'L+1', '2L', '(L+2)|1'],
                    'pair_max_len': LP, 'history_full_cross_max_len': LX, 'object_family_max_len': LH, 'scaled_max_len': LS,
                    'scales': SCALES, 'scaled_dt': SCALED_DTS, 'near_equal_N': near_n, 'near_equal_eps': NEAR_EPS,
                    'near_equal_scales': NEAR_SCALES, 'containers': ['float64', 'int64', 'int16 x15000', 'uint8 x125 (words without -1)',
-                                                                    'list', 'tuple'],
+                                                                    'list', 'tuple', 'complex128 (zero imaginary part)'],
+                   'power_of_two_boundary_lengths': 'L = 2^e + {-1, 0, 1}, e = 1..%d' % e_max,
+                   'read_orders': {'reads': ORD_READS, 'record_changes': ORD_MUTATORS, 'max_len_orders_of_3': LO3,
+                                   'max_len_orders_of_2': LO2, 'dt': DTS[0]},
+                   'round_trip_objects': ['fas2signal(spectrum, dt, stype)', 'Signal/AccSignal(fas2values(spectrum, dt), dt)'],
                    'previous_record_lengths': ['2', 'L-1', 'L+1', '2L+1', '2^ceil(log2 L)+1'],
                    'object_history_before_array_level_call': ['fresh', 'lazy-read', 'gen_fa_spectrum(p2_plus=1)',
                                                               'gen_fa_spectrum(n=(L+2)|1)', 'every padding mode (short words)'], 'inverse_even_N': inv_n, 'long_lengths': longs, 'tie_tolerance': TIE},
@@ -115,10 +146,17 @@ def build(tier, seed):
                              'history-longer-record-before', 'history-across-power-of-two', 'history-same-padded-length',
                              'history-add_constant', 'history-add_series', 'container-i64', 'container-i16', 'container-u8',
                              'container-list', 'container-tuple', 'a-b-a', 'two-live-objects', 'returned-array-overwritten',
-                             'default-after-explicit', 'scaled-1e-09', 'scaled-1e+06', 'near-equal-amplitudes'],
+                             'default-after-explicit', 'scaled-1e-09', 'scaled-1e+06', 'near-equal-amplitudes',
+                             'container-c128', 'roundtrip-object', 'roundtrip-object-padded-further', 'boundary-2^e-1',
+                             'boundary-2^e', 'boundary-2^e+1', 'boundary-e>=14'] + ['orders:' + n for n in ORD_MUTATORS],
         'assumptions': ['sample values outside {-1,0,2} (their linear combinations 2x-3y, their multiples by 1e-9, 1e+6, 15000 (int16), '
                         '125 (uint8), and the two-harmonic records of the near-equal family) are not examined',
                         'float32 records are not examined (the unchanged tree transforms them in single precision)',
+                        'complex-typed records only with a vanishing imaginary part (exactly zero for the container of the word, at '
+                        'rounding level for the arrays the inverse helpers return): that is what the library itself produces',
+                        'lengths 2^e +- 1 above the word / long families only for the sparse three-sample record; their reference is '
+                        'the explicit sum over the non-zero samples evaluated for all bins at once with numpy (no FFT), spot-checked '
+                        'against scalar cmath',
                         'an array handed out by a lazy property (sig.fa_spectrum, sig.fa_freqs) is the object\'s own store, like '
                         'sig.values: overwriting it in place is outside the examined space; after gen_fa_spectrum() / '
                         'reset_values() the object must hold correct values again',
@@ -236,8 +274,76 @@ def period_check(r, sub, got, rspec, N, dt):
                     % (g, tied, len(amp)), observed=g, expected=want)
 
 
-def inverse_checks(r, sub, fas, dt, x, N, feed):
-    """fas2values / fas2signal on a one-sided spectrum of an even N."""
+_RT = {}        # (record, N) -> RefCache of the exact reconstruction (padded record minus mean and Nyquist component)
+
+
+def roundtrip_ref(x, N, want):
+    key = (tuple(x), N)
+    if key not in _RT:
+        if len(_RT) > 64:
+            _RT.clear()
+        _RT[key] = RefCache([float(v) for v in want])
+    return _RT[key]
+
+
+def check_roundtrip_object(r, sub, sg, x, N, dt, want, given, peak, deep):
+    """sg is a Signal / AccSignal holding the record the inverse helper produced (the RAW output of the inverse transform: a
+    complex-typed array of N samples).  Its spectrum is, like that of every record, dt x DFT of the record it holds zero-padded
+    to the N of the statement.  For the N-point transform that is the spectrum the record was built from with bin 0 (the mean,
+    which is not carried) set to zero; for N' = next power of two > N (N not a power of two) the naive DFT of the exact
+    reconstruction.  Tolerances relative to the peak of the spectrum the record was built from."""
+    r.cls('roundtrip-object')
+    r.transitions += 1
+    e0 = np.array(given, dtype=complex)
+    e0[0] = 0.0
+    f0 = np.array([k / (N * dt) for k in range(N // 2)], dtype=float)
+    N2 = fr.n_rule(N, 0)
+
+    def cmp(s1, out, espec, efreqs):
+        ok, a, f = unpack2(r, 'values', s1, out)
+        if ok:
+            r.expect_close('values', s1, a, espec, rtol=1e-9, scale=peak, what='spectrum of the reconstructed record vs dt*DFT')
+            r.expect_close('grid', s1, f, efreqs, rtol=1e-9, what='frequencies vs k/(N*dt)')
+    if N2 == N:
+        espec, efreqs = e0, f0
+    else:
+        r.cls('roundtrip-object-padded-further')
+        espec, efreqs, _ = roundtrip_ref(x, N, want).get(N2, dt)
+    s1 = dict(sub, mode='default', entry='object-lazy')
+    ok, out = r.call('values', s1, lambda: (sg.fa_spectrum, sg.fa_freqs))
+    if ok:
+        cmp(s1, out, espec, efreqs)
+        s1 = dict(s1, entry='object-lazy-fa_frequencies')
+        ok, out = r.call('grid', s1, lambda: sg.fa_frequencies)
+        if ok:
+            r.expect_close('grid', s1, out, efreqs, rtol=1e-9)
+    s1 = dict(sub, mode='N=%d' % N, entry='calc_fa_spectrum-unpadded')
+    ok, out = r.call('values', s1, frequency.calc_fa_spectrum, sg)
+    if ok:
+        cmp(s1, out, e0, f0)
+    if not deep:
+        return
+    s1 = dict(sub, mode='default')
+    ok, p = r.call('max_fa_period', s1, im.max_fa_period, sg)
+    if ok and float(np.max(np.abs(espec))) > 1e-6 * peak:      # a reconstruction that is zero up to rounding has no dominant period
+        period_check(r, s1, p, espec, N2, dt)
+    s1 = dict(sub, mode='N=%d' % N2, entry='generate_fa_spectrum-padded')
+    ok, out = r.call('values', s1, frequency.generate_fa_spectrum, sg)
+    if ok:
+        cmp(s1, out, espec, efreqs)
+    s1 = dict(sub, mode='n=%d' % N, entry='object-gen_fa_spectrum')
+
+    def gen():
+        sg.gen_fa_spectrum(n=N)
+        return sg.fa_spectrum, sg.fa_freqs
+    ok, out = r.call('values', s1, gen)
+    if ok:
+        cmp(s1, out, e0, f0)
+
+
+def inverse_checks(r, sub, fas, dt, x, N, feed, rt=2):
+    """fas2values / fas2signal on a one-sided spectrum of an even N.  rt: how far the round trip goes on with the reconstructed
+    objects (0: not at all, 1: lazy properties and un-padded array-level function, 2: every forward entry point)."""
     want = np.array([float(v) for v in fr.padded_minus_mean_and_nyquist(x, N)])
     scale = float(max(abs(v) for v in x)) or 1.0
     r.cls('inverse-pow2-N' if fr.is_pow2(N) else 'inverse-non-pow2-N')
@@ -266,8 +372,13 @@ def inverse_checks(r, sub, fas, dt, x, N, feed):
                 pass
     ok, v = r.call('inverse.values', dict(s2, fn='fas2values'), frequency.fas2values, fas, dt)
     spectrum_unchanged('fas2values')
+    v_ok = False
     if ok:
-        check_series(r, dict(s2, fn='fas2values'), v, want, N, scale)
+        v_ok = check_series(r, dict(s2, fn='fas2values'), v, want, N, scale)
+    # the round trip goes on: what the inverse helpers return is a record like any other (as the library hands it out: the raw,
+    # complex-typed output of the inverse transform) and is fed back into the forward functions
+    peak = max(float(np.max(np.abs(snap))), dt * scale) if snap is not None and snap.size else 0.0
+    deep = rt >= 2
     for stype, cname in (('signal', 'Signal'), ('acc_signal', 'AccSignal')):
         s3 = dict(s2, fn='fas2signal', stype=stype)
         ok, sg = r.call('inverse.values', s3, frequency.fas2signal, fas, dt, stype=stype)
@@ -279,9 +390,18 @@ def inverse_checks(r, sub, fas, dt, x, N, feed):
         except Exception:
             r.fail('inverse.signal', s3, 'result has no values/dt', observed=sg)
             continue
-        check_series(r, s3, vals, want, N, scale)
+        good = check_series(r, s3, vals, want, N, scale)
         r.expect('inverse.signal', s3, tname == cname and sdt == dt, 'wrong object type or dt', observed=(tname, sdt),
                  expected=(cname, dt))
+        if good and snap is not None and N >= 2 and rt:
+            check_roundtrip_object(r, dict(s3, then='spectrum of the returned object'), sg, x, N, dt, want, snap, peak, deep)
+            spectrum_unchanged('spectrum of the object returned by fas2signal')
+            if v_ok and (deep or stype == 'signal'):
+                # the same thing by hand: an object constructed from the array fas2values returned
+                s4 = dict(s2, fn='fas2values', then='spectrum of %s(fas2values(...), dt)' % cname)
+                ok, sg2 = r.call('values', dict(s4, entry='construct'), make, cname, v, dt)
+                if ok:
+                    check_roundtrip_object(r, s4, sg2, x, N, dt, want, snap, peak, False)
     if feed == 'reference':
         # default stype is the plain Signal
         ok, sg = r.call('inverse.signal', dict(s2, fn='fas2signal', stype='default'), frequency.fas2signal, fas, dt)
@@ -441,14 +561,16 @@ def check_record(r, w, tag, light=False, full_cross=False, dts=DTS):
                 if N % 2 == 0 and cname == 'Signal':
                     s6 = {'w': tag, 'dt': dt, 'N': N}
                     if mname == 'default' or 'n' in kw or not light:
-                        inverse_checks(r, s6, rspec.copy(), dt, w, N, 'reference')
+                        inverse_checks(r, s6, rspec.copy(), dt, w, N, 'reference', rt=0)
                         if ospec is not None:
                             try:
                                 fas = np.array(ospec)
                             except Exception:
                                 fas = None
                             if fas is not None:
-                                inverse_checks(r, dict(s6, mode=mname), fas, dt, w, N, 'implementation')
+                                # the spectrum the object produced -> inverse helpers -> forward functions again
+                                inverse_checks(r, dict(s6, mode=mname), fas, dt, w, N, 'implementation',
+                                               rt=2 if mname == 'default' else 1)
 
             # ---- array-level entry points with their own rules, on objects with a history: the array-level functions
             # take the Signal object, so "dt x DFT of the record zero-padded to N" (N from the CALL's arguments) must hold
@@ -638,7 +760,9 @@ def run_obj(r, w, tag):
                         check_object_now(r, sub, s, pref, L, dt, full=False)
             # ---- (3) argument containers
             conts = [('i64', lambda: np.array(w, dtype=np.int64), 1), ('i16', lambda: np.array([15000 * v for v in w], dtype=np.int16), 15000),
-                     ('list', lambda: [int(v) for v in w], 1), ('tuple', lambda: tuple(float(v) for v in w), 1)]
+                     ('list', lambda: [int(v) for v in w], 1), ('tuple', lambda: tuple(float(v) for v in w), 1),
+                     # complex-typed array with a vanishing imaginary part: what the library's own inverse helpers hand out
+                     ('c128', lambda: np.array(w, dtype=complex), 1)]
             if min(w) >= 0:
                 conts.append(('u8', lambda: np.array([125 * v for v in w], dtype=np.uint8), 125))
             for kname, mk, fac in conts:
@@ -804,6 +928,219 @@ def run_near(r, N):
     return r
 
 
+# ------------------------------------------------------------------------------ orders of reads after a change of the record
+ORD_READS = ('fa_spectrum', 'fa_freqs', 'fa_frequencies', 'fa_spectrum_abs', 'max_fa_period', 'smooth_fa_spectrum',
+             'generate_fa_spectrum(sig)')
+ORD_MUTATORS = ('reset_values(from L+1 samples)', 'reset_values(from 2^ceil(log2 L)+1 samples)', 'add_constant', 'add_series')
+
+
+def run_orders(r, w, depth3):
+    """An object that held another record (spectrum, frequencies, smoothed spectrum, dominant period read) has its record changed;
+    then every order of 1, 2 (and, depth3, 3) distinct reads from ORD_READS.  Whatever the order, every Fourier quantity read is
+    that of the record held NOW, an array obtained by an earlier read is not modified by a later one, and afterwards the object
+    reports the spectrum of its record."""
+    L = len(w)
+    ref = RefCache(w)
+    wf = np.array(w, dtype=float)
+    r.nontrivial += 1
+    n_default = fr.n_rule(L, 0)
+    dt = DTS[0]
+    rspec, rfreqs, _ = ref.get(n_default, dt)
+    peak = float(np.max(np.abs(rspec)))
+    names = list(ORD_READS)
+    orders = [(a,) for a in names] + [(a, b) for a in names for b in names if a != b]
+    if depth3:
+        orders += [(a, b, c) for a in names for b in names for c in names if len(set((a, b, c))) == 3]
+    for cname in CLASSES:
+        r.cls(cname)
+        for mname in ORD_MUTATORS:
+            r.cls('orders:' + mname)
+            base = {'w': w, 'dt': dt, 'cls': cname, 'after': mname}
+
+            def mutate():
+                if mname.startswith('reset_values'):
+                    plen = L + 1 if 'L+1' in mname else (1 << fr.ceil_log2(L)) + 1
+                    s_ = make(cname, np.array(long_record(plen, 'mixed'), dtype=float), dt)
+                elif mname == 'add_constant':
+                    s_ = make(cname, wf - 3.0, dt)
+                else:
+                    s_ = make(cname, np.array(partner(w), dtype=float), dt)
+                _ = (s_.fa_spectrum, s_.fa_freqs, s_.fa_spectrum_abs, s_.smooth_fa_spectrum)
+                _ = im.max_fa_period(s_)
+                if mname.startswith('reset_values'):
+                    s_.reset_values(wf.copy())
+                elif mname == 'add_constant':
+                    s_.add_constant(3.0)
+                else:
+                    s_.add_series(wf - np.array(partner(w), dtype=float))
+                return s_
+            for order in orders:
+                sub = dict(base, reads=list(order))
+                r.states += 1
+                r.transitions += len(order)
+                ok, s = r.call('values', dict(sub, entry='prepare'), mutate)
+                if not ok:
+                    continue
+                held = []
+                for i, rname in enumerate(order):
+                    s1 = dict(sub, read=i, entry=rname)
+                    if rname == 'max_fa_period':
+                        ok, out = r.call('max_fa_period', s1, im.max_fa_period, s)
+                        if ok:
+                            period_check(r, s1, out, rspec, n_default, dt)
+                        continue
+                    if rname == 'smooth_fa_spectrum':       # its values are another property's business; here it is a read
+                        try:
+                            out = s.smooth_fa_spectrum
+                        except Exception:
+                            continue
+                    elif rname == 'generate_fa_spectrum(sig)':
+                        ok, out = r.call('values', s1, frequency.generate_fa_spectrum, s)
+                        if ok:
+                            ok, a, f = unpack2(r, 'values', s1, out)
+                            if ok:
+                                cmp_spec(r, s1, a, f, rspec, rfreqs)
+                        continue
+                    else:
+                        ok, out = r.call('values', s1, getattr, s, rname)
+                        if not ok:
+                            continue
+                        if rname == 'fa_spectrum':
+                            r.expect_close('values', s1, out, rspec, rtol=1e-9, what='spectrum vs dt*DFT of the record held now')
+                        elif rname == 'fa_spectrum_abs':
+                            r.expect_close('values', s1, out, np.abs(rspec), rtol=1e-9, scale=peak)
+                        else:
+                            r.expect_close('grid', s1, out, rfreqs, rtol=1e-9, what='frequencies vs k/(N*dt)')
+                    if isinstance(out, np.ndarray):
+                        held.append((rname, out, out.copy()))
+                s9 = dict(sub, read='final', mode='default', entry='object-lazy')
+                ok, out = r.call('values', s9, lambda: (s.fa_spectrum, s.fa_freqs))
+                if ok:
+                    cmp_spec(r, s9, out[0], out[1], rspec, rfreqs)
+                r.n_cmp += 1
+                for rname, arr, keep in held:
+                    if not (arr.shape == keep.shape and np.array_equal(arr, keep)):
+                        r.fail('read-leaves-object-unchanged', dict(s9, held=rname),
+                               'the array obtained from %s was modified by a later read' % rname, observed=arr, expected=keep)
+    return r
+
+
+# ------------------------------------------------------------------------------ lengths next to powers of two, whole range
+def pow2_record(L):
+    """Sparse record of L samples: first, middle and last sample non-zero (the last one: nothing may be cut off)."""
+    nz = {0: 2.0}
+    nz[L // 2] = -1.0
+    nz[L - 1] = 2.0
+    return sorted(nz.items())
+
+
+def sparse_reference(nz, N):
+    """DFT bins 0..floor(N/2) of the record whose only non-zero samples are nz = [(t, v), ...] zero-padded to N: the explicit sum
+    over the non-zero samples, X_k = sum_t v_t exp(-2 pi i ((k t) mod N) / N) with the phase index reduced in integer arithmetic,
+    evaluated for all bins at once (numpy, no FFT); a few bins are re-evaluated with scalar cmath as a self-check."""
+    pts = N // 2
+    k = np.arange(pts + 1, dtype=np.int64)
+    X = np.zeros(pts + 1, dtype=complex)
+    for t, v in nz:
+        X += v * np.exp(-2j * np.pi * (((k * int(t)) % N) / float(N)))
+    import cmath
+    import math
+    for kk in sorted(set([0, 1, pts // 3, pts - 1, pts])):
+        if 0 <= kk <= pts:
+            sc = sum(v * cmath.exp(-2j * math.pi * ((kk * int(t)) % N) / N) for t, v in nz)
+            if abs(sc - X[kk]) > 1e-12 * sum(abs(v) for t, v in nz):
+                raise AssertionError('harness: vectorised reference disagrees with the scalar sum at bin %d' % kk)
+    return X
+
+
+def run_pow2(r, e, off):
+    """One record length L = 2^e + off, off in {-1, 0, +1}: every padded entry point must use N = next power of two >= L (times
+    2^p2_plus) - found here by integer arithmetic - for ALL e the tier can afford: the number of bins, the grid and the values
+    (sparse record, so the explicit sum is cheap).  Un-padded and explicit-n entry points on the same object."""
+    L = (1 << e) + off
+    nz = pow2_record(L)
+    x = np.zeros(L)
+    for t, v in nz:
+        x[t] = v
+    r.nontrivial += 1
+    r.cls('pow2-length' if fr.is_pow2(L) else 'non-pow2-length')
+    r.cls({-1: 'boundary-2^e-1', 0: 'boundary-2^e', 1: 'boundary-2^e+1'}[off])
+    if e >= 14:
+        r.cls('boundary-e>=14')
+    n_default = fr.n_rule(L, 0)
+    p2s = (0, 1, 2, 3) if e <= 12 else (0, 1)
+    dts = DTS if e <= 12 else DTS[:1]
+    refs = {}
+
+    def ref(N, dt):
+        if N not in refs:
+            refs[N] = sparse_reference(nz, N)
+        X = refs[N]
+        pts = N // 2
+        return dt * X[:pts], np.arange(pts) / (N * dt)
+    tag = 'sparse:L=2^%d%+d' % (e, off) if off else 'sparse:L=2^%d' % e
+    for dt in dts:
+        for cname in CLASSES:
+            r.cls(cname)
+            base = {'w': tag, 'dt': dt, 'cls': cname}
+            ok, s = r.call('values', dict(base, entry='construct'), make, cname, x, dt)
+            if not ok:
+                continue
+            entries = [('generate_fa_spectrum-default', lambda: frequency.generate_fa_spectrum(s), n_default),
+                       ('generate_fa_spectrum-padded', lambda: frequency.generate_fa_spectrum(s, n_pad=True), n_default),
+                       ('generate_fa_spectrum-unpadded', lambda: frequency.generate_fa_spectrum(s, n_pad=False), L),
+                       ('calc_fa_spectrum-unpadded', lambda: frequency.calc_fa_spectrum(s), L),
+                       ('calc_fa_spectrum-n=%d' % (L + 1), lambda: frequency.calc_fa_spectrum(s, n=L + 1), L + 1)]
+            for p in p2s:
+                entries.append(('calc_fa_spectrum-p2_plus=%d' % p, (lambda p=p: frequency.calc_fa_spectrum(s, p2_plus=p)),
+                                fr.n_rule(L, p)))
+            entries.append(('object-lazy', lambda: (s.fa_spectrum, s.fa_freqs), n_default))
+            for p in p2s[1:]:
+                entries.append(('object-gen_fa_spectrum(p2_plus=%d)' % p,
+                                (lambda p=p: (s.gen_fa_spectrum(p2_plus=p), s.fa_spectrum, s.fa_freqs)[1:]), fr.n_rule(L, p)))
+            entries.append(('object-gen_fa_spectrum()-after-explicit', lambda: (s.gen_fa_spectrum(), s.fa_spectrum, s.fa_freqs)[1:],
+                            n_default))
+            got = {}
+            for ename, fn, N in entries:
+                sub = dict(base, mode='N=%d' % N, entry=ename)
+                r.states += 1
+                r.cls('odd-N' if N % 2 else 'even-N')
+                ok, out = r.call('values', sub, fn)
+                if not ok:
+                    continue
+                ok, a, f = unpack2(r, 'values', sub, out)
+                if ok:
+                    rspec, rfreqs = ref(N, dt)
+                    cmp_spec(r, sub, a, f, rspec, rfreqs)
+                    got[ename] = (a, f)
+            if 'object-lazy' in got and 'generate_fa_spectrum-default' in got:
+                r.transitions += 1
+                r.cls('object==array')
+                s4 = dict(base, mode='default')
+                rspec, rfreqs = ref(n_default, dt)
+                r.expect_close('object==array.values', s4, got['object-lazy'][0], got['generate_fa_spectrum-default'][0], rtol=1e-12,
+                               scale=float(np.max(np.abs(rspec))))
+                r.expect_close('object==array.grid', s4, got['object-lazy'][1], got['generate_fa_spectrum-default'][1], rtol=1e-12,
+                               scale=float(np.max(np.abs(rfreqs))) if len(rfreqs) else 0.0)
+            s3 = dict(base, mode='default')
+            ok, p = r.call('max_fa_period', s3, im.max_fa_period, s)
+            if ok:
+                # as period_check, on arrays: the period N dt / k of SOME bin whose amplitude is within 1e-12 of the largest
+                amp = np.abs(ref(n_default, dt)[0])
+                tied = np.nonzero(amp >= float(np.max(amp)) * (1 - TIE))[0]
+                want = [float('inf') if k == 0 else n_default * dt / int(k) for k in tied[:50]]
+                try:
+                    g = float(p)
+                    okp = np.ndim(p) == 0 and any((g == q) or (q != float('inf') and abs(g - q) <= 1e-9 * q)
+                                                  for q in ([float('inf')] if 0 in tied else []) +
+                                                  [n_default * dt / int(k) for k in tied if k > 0])
+                except Exception:
+                    okp = False
+                r.expect('max_fa_period', s3, okp, 'period %r is not the period of a largest-amplitude bin' % (p,), observed=p,
+                         expected=want)
+    return r
+
+
 # ------------------------------------------------------------------------------ linearity
 def spectra(entry, cname, vals, dt, L):
     s = make(cname, vals, dt)
@@ -886,7 +1223,7 @@ def run_inverse(r, N):
             r.cls('even-N')
             rspec, rfreqs, rtop = ref.get(N, dt)
             sub = {'N': N, 'rec': name, 'dt': dt}
-            inverse_checks(r, sub, rspec.copy(), dt, x, N, 'reference')
+            inverse_checks(r, sub, rspec.copy(), dt, x, N, 'reference', rt=1)
             if not name.startswith('impulse') or name in ('impulse@0', 'impulse@1', 'impulse@%d' % (N - 1)):
                 def own():
                     s = eqsig.Signal(np.array(x, dtype=float), dt)
@@ -928,6 +1265,10 @@ def run_case(case):
         return check_record(r, [sc * v for v in w], tag, light=True, dts=SCALED_DTS)
     if k == 'near':
         return run_near(r, case['N'])
+    if k == 'pow2':
+        return run_pow2(r, case['e'], case['off'])
+    if k == 'orders':
+        return run_orders(r, case['w'], bool(case.get('deep')))
     if k == 'pair':
         return run_pairs(r, case['x'])
     if k == 'inv':
@@ -938,6 +1279,17 @@ def run_case(case):
 def snippet(case, v):
     sub = v.get('sub') or {}
     k = case['k']
+    if k == 'pow2':
+        L = (1 << case['e']) + case['off']
+        return ("import numpy as np, eqsig\nfrom eqsig.fns import frequency\n"
+                "sub = %r\nL = %d   # 2^%d %+d\nx = np.zeros(L)\nfor t, v in %r: x[t] = v\n"
+                "s = eqsig.Signal(x, sub['dt'])\nN = 1\nwhile N < L: N *= 2\n"
+                "print('npts', L, 'next power of two', N, 'expected bins', N // 2)\n"
+                "print('generate_fa_spectrum bins', len(frequency.generate_fa_spectrum(s)[0]))\n"
+                "print('calc_fa_spectrum(p2_plus=0) bins', len(frequency.calc_fa_spectrum(s, p2_plus=0)[0]), '(p2_plus=1)',\n"
+                "      len(frequency.calc_fa_spectrum(s, p2_plus=1)[0]), 'expected', N)\n"
+                "print('object bins', len(s.fa_spectrum), 'df', s.fa_freqs[1], 'expected', 1 / (N * s.dt))\n"
+                % (sub, L, case['e'], case['off'], pow2_record(L)))
     if k in ('word', 'obj', 'scaled') and 'w' in case:
         rec = [float(case.get('scale', 1)) * x for x in case['w']]
     elif k in ('long', 'obj', 'scaled'):
@@ -964,5 +1316,7 @@ def snippet(case, v):
             "print('spectrum', s.fa_spectrum); print('freqs', s.fa_freqs, 'expected k/(N dt):', np.arange(N // 2) / (N * s.dt))\n"
             "print('max_fa_period', eqsig.im.max_fa_period(s), 'abs', abs(s.fa_spectrum))\n"
             "print('len fas2values', len(frequency.fas2values(s.fa_spectrum, s.dt)), 'N', N)\n"
+            "if 'then' in sub:   # round trip: the object the inverse helper returns, fed back into the forward functions\n"
+            "    s2 = frequency.fas2signal(s.fa_spectrum, s.dt); print('round trip', s2.values.dtype, s2.fa_spectrum, 'built from', s.fa_spectrum)\n"
             "print('npts', s.npts, '-> default N = next power of two >= npts; sub[mode] names the N of the statement')\n"
             % (sub, rec, pre))
